@@ -6,5 +6,6 @@ CONSTANTS
   Elem = {}
   AsBuilt = {"mismatch_not_associative"}
   Kinds = {"lww", "hash", "gcounter", "pncounter", "gset", "orset"}
+  CausalModes = {FALSE}
 INVARIANT TraceInv
 CHECK_DEADLOCK FALSE
